@@ -1,7 +1,8 @@
 (* C10 -- The configured heap limit is enforced before memory is taken.
    Property theorems only; proofs live in Proofs/HeapLimitProofs.v.  Constants (MIN_HEAP_BYTES, MAX_ALLOC,
    layout sizes) are regenerated from /repo by tools/extractors/c10.py on every run. *)
-From Aelys Require Import Base.Tactics Extracted.HeapConsts Model.HeapLimit Proofs.HeapLimitProofs.
+From Coq Require Import String.
+From Aelys Require Import Base.Tactics Extracted.HeapConsts Extracted.HeapSites Model.HeapLimit Model.HeapLimitObs Proofs.HeapLimitProofs.
 Local Open Scope N_scope.
 
 (* ensure_heap_capacity: for all u64 inputs the answer is Ok exactly when the UNBOUNDED sum fits *)
@@ -106,6 +107,33 @@ Theorem string_pad_checks_first : forall (cap : N) (m : mem) (schars sbytes pad_
   (Inv m' /\ maxb m' = maxb m /\ (r = ROk \/ m' = m)) /\ check_first t = true /\ (r = ROom -> host_total t = 0).
 Proof. exact pad_step. Qed.
 
+(* natives that know the length of their result (string.replace, string.join -- results as long as the product of two
+   held strings; KF-C10-6 repaired): the limit is consulted before the host builds anything *)
+Theorem string_result_checked_first : forall (cap : N) (m : mem) (total : N), Inv m ->
+  let '(r, m', t) := op_string_checked cap m total in
+  (Inv m' /\ maxb m' = maxb m /\ (r = ROk \/ m' = m)) /\ check_first t = true /\ (r = ROom -> host_total t = 0).
+Proof. exact string_checked_step. Qed.
+
+(* ---- the loops the tie executes *)
+(* the accelerated push loop (jumps over pushes that fit the capacity) computes exactly what replaying every
+   push computes, whenever it finishes within its bound *)
+Theorem push_fast_agrees : forall (bound n cap : N) (m : mem) (v : vecst) (r : res * mem * vecst),
+  push_fast bound n cap m v = (0, r) -> push_many_n n cap m v = r.
+Proof. exact push_fast_correct. Qed.
+
+(* any number of pushes, loops of guarded allocations that keep what they allocate (closures, vec literals), and
+   repeated s = s + s with the collector running at its threshold: heap + manual <= max after every step, the
+   charge of the vec equals its size, garbage + current string never exceed the heap *)
+Theorem push_loop_keeps_limit : forall (n cap : N) (m : mem) (v : vecst),
+  Inv m -> vcharged v = vec_bytes v -> vlen v <= vcap v -> vst_ok (push_many_n n cap m v).
+Proof. exact push_many_n_ok. Qed.
+Theorem guarded_loop_keeps_limit : forall (n cap : N) (allocs : list (N * bool)) (m : mem) (v : vecst),
+  Inv m -> vcharged v = vec_bytes v -> vlen v <= vcap v -> vst_ok (loop_run n cap allocs m v).
+Proof. exact loop_run_ok. Qed.
+Theorem concat_with_collector_keeps_limit : forall (n : N) (m : mem) (slen : N),
+  Inv m -> cst_ok (snd (concat_gc n m slen)).
+Proof. exact concat_gc_ok. Qed.
+
 (* the former counterexamples on the repaired definitions (limit 1 MiB, 100 000 bytes in use, host grants 2^40):
    refused by the check, nothing allocated; 2000 pushes are charged 2047 * 8 bytes; reserve beyond the limit is
    OutOfMemory *)
@@ -132,3 +160,13 @@ Example C10_nonvacuous :
   fst (fst (gstep w_cap (grun w_cap m0 [GStr 1000; GManual 100000; GObj 4000; GSweep 1024; GManualFree 800000; GManual 100]) (GManual 117972))) = ROk /\
   fst (fst (gstep w_cap (grun w_cap m0 [GStr 1000; GManual 100000; GObj 4000; GSweep 1024; GManualFree 800000; GManual 100]) (GManual 117973))) = ROom.
 Proof. vm_compute. repeat split; try reflexivity. discriminate. Qed.
+
+(* ---- the census of allocating primitives, regenerated from runtime/src and bytecode/src/object on every run
+   (Extracted.HeapSites): every sized host allocation is preceded by a heap-limit check (1) or its own bound (2), is a
+   constant / operand / bounded VM-internal quantity (3) or a constructor whose callers are sites themselves (4);
+   every native that builds a string checks the length of its result first (1) or is linear in its inputs (5) *)
+Example alloc_sites_all_guarded :
+  forallb (fun s => negb (N.eqb (snd s) 0)) heap_alloc_sites = true /\
+  forallb (fun s => negb (N.eqb (snd s) 0)) string_builders = true /\
+  (0 < List.length heap_alloc_sites)%nat /\ (0 < List.length string_builders)%nat.
+Proof. vm_compute. repeat split; try reflexivity; apply Nat.ltb_lt; reflexivity. Qed.
